@@ -1830,7 +1830,9 @@ class RDD:
         if num == 0:
             return []
 
-        initial_sample = self.take(num)
+        # (a whole-partition job, not the lazily evaluated take(): failing
+        # partitions are retried)
+        initial_sample = self.collect()[:num]
         initial_count = len(initial_sample)
         if initial_count == 0:
             return []
